@@ -158,9 +158,9 @@ def step_obligations(ctx, rec):
                         ctx.event('entries-kept')
 
 
-def h_session(ctx, n=3, kind='T1', side='long', exch='futures', cancel=True):
+def h_session(ctx, n=3, kind='T1', side='long', exch='futures', cancel=True, sym=None):
     long = side == 'long'
-    rows = S.minute_rows(ctx, n, sym_from=1)
+    rows = S.sparse_rows(ctx, n, list(sym)) if sym is not None else S.minute_rows(ctx, n, sym_from=1)
     on_open = exch == 'spot' or kind in ('T4', 'T5')
     sgn = 1 if long else -1
     if kind in ('T1', 'T6'):
@@ -204,6 +204,19 @@ def h_session(ctx, n=3, kind='T1', side='long', exch='futures', cancel=True):
         ctx.constrain(And(c1 > sl + 0.5, c1 < tp - 0.5) if long else And(c1 < sl - 0.5, c1 > tp + 0.5))
         T = S.make_template(side=side, entry=None, stop=sl, take=tp, qty=1.0, on_open_exits=True, name='T7', reenter=True,
                             exit_qty_from_position=(exch == 'spot'))
+    elif kind == 'T8m':
+        # the stop-loss declaration gains a second row at step 1 and loses it again at step 2, the first row staying the same
+        s1 = ctx.real('s1', 50, 200)
+        s2 = ctx.real('s2', 50, 200)
+        ctx.constrain(And(s1 < 99.7, s2 < 99.7, Not(s1 == s2)) if long else And(s1 > 100.3, s2 > 100.3, Not(s1 == s2)))
+
+        def stops(st):
+            if st.index == 1:
+                return [(1.0, s1), (1.0, s2)]
+            if st.index >= 2:
+                return [(1.0, s1)]
+            return st.stop_loss
+        T = S.make_template(side=side, entry=None, stop=[(1.0, s1)], take=None, qty=2.0, name='T8m', update_stop=stops)
     elif kind == 'T3h':
         # multi-row take-profit with UNEQUAL quantities declared in a hook (on_open_position), prices in any order
         sl = ctx.real('sl', 50, 200)
@@ -263,8 +276,12 @@ def _jobs(tier):
         add(n=3, kind='T6', side='long', exch='futures', cancel=False)
         add(n=3, kind='T7', side='long', exch='futures')
         add(n=2, kind='T3h', side='long', exch='futures')
+        add(n=4, kind='T8m', side='long', exch='futures', sym=[2])
     else:
         for side in ('long', 'short'):
+            for kind in ('T1', 'T2', 'T3', 'T3h', 'T4', 'T5', 'T7'):
+                pass
+            add(n=4, kind='T8m', side=side, exch='futures', sym=[1, 2])
             for kind in ('T1', 'T2', 'T3', 'T3h', 'T4', 'T5', 'T7'):
                 add(n=3, kind=kind, side=side, exch='futures')
             add(n=3, kind='T6', side=side, exch='futures', cancel=False)
